@@ -283,7 +283,7 @@ func init() {
 func init() {
 	properties["C06"] = Property{
 		Level:       "exploration",
-		Rule:        "cases = histories of 4-10 steps over ONE shared (GOCACHE, GARBLE_CACHE) that starts as the union of the warmed caches of the configurations the history visits: build under a drawn configuration {default, -tiny, -literals, -seed (three values, two of them 12-byte seeds sharing their first 8 bytes), -literals -tiny, GARBLE_EXPERIMENTAL_CONTROLFLOW=1, GOGARBLE = the module only, GOGARBLE = one package (alpha) and GOGARBLE = that package plus a sibling whose path has the first one's as a string prefix (alpha,alphabet) - drawn together} with or without -tags and -ldflags=-X (four values, targets in main and in a dependency), edit a drawn package {literal, new function, comment only, parameters of the //garble:controlflow directive of the program's control-flow function}, rebuild with nothing changed. Reference model: a memo table (configuration, flags, source digest) -> (sha256, program output) filled by the same command on private module-cold caches. Invariant after every build: same exit status, same program output and same binary as the reference; after 'rebuild with nothing changed': go build -v names no package of the module. Non-trivial = a configuration is built again after another build or an edit intervened; distinct = the sequence of (configuration class, edit kind).",
+		Rule:        "cases = histories of 4-11 steps over ONE shared (GOCACHE, GARBLE_CACHE) that starts as the union of the warmed caches of the configurations the history visits: build under a drawn configuration {default, -tiny, -literals, -seed (three values, two of them 12-byte seeds sharing their first 8 bytes), -literals -tiny, GARBLE_EXPERIMENTAL_CONTROLFLOW=1, GOGARBLE = the module only, GOGARBLE = one package (alpha) and GOGARBLE = that package plus a sibling whose path has the first one's as a string prefix (alpha,alphabet) - drawn together} with or without -tags and -ldflags=-X (four values, targets in main and in a dependency), edit a drawn package {literal, new function, comment only, parameters of the //garble:controlflow directive of the program's control-flow function}, rebuild with nothing changed. Every history builds some configuration a second time: one build step in three goes back to the configuration of an earlier step and, when no drawn build does, a closing build of the first configuration is appended. Reference model: a memo table (configuration, flags, source digest) -> (sha256, program output) filled by the same command on private module-cold caches. Invariant after every build: same exit status, same program output and same binary as the reference; after 'rebuild with nothing changed': go build -v names no package of the module. Non-trivial = a configuration is built again after another build or an edit intervened; distinct = the sequence of (configuration class, edit kind).",
 		Assumptions: append([]string{"reproducibility (C03) is presupposed: configurations with an open C03 finding are not part of the histories"}, commonAssumptions...),
 		ReplayUnit:  "TestC06Replay",
 		Units: []Unit{
